@@ -773,7 +773,10 @@ class Model(Object):
                     self.add_metabolites(metabolite)
                     # A reaction that was removed from a model before is no
                     # longer listed by its metabolites.
-                    metabolite._reaction.add(reaction)
+                    if reaction not in metabolite._reaction:
+                        metabolite._reaction.add(reaction)
+                        if context:
+                            context(partial(metabolite._reaction.remove, reaction))
                 # A copy of the metabolite exists in the model, the reaction
                 # needs to point to the metabolite in the model.
                 else:
